@@ -163,6 +163,69 @@ func c16(x *Ctx) {
 			copies = append(copies, al)
 		}
 	})
+	// objects obtained from the event (or from the span that wraps it) through a function of this repository – a
+	// Clone(), a copy helper – may share the event behind a pointer: what is written through their pointer fields
+	// lands on the received event
+	spanOfEv := map[ssa.Value]bool{ssa.Value(rs.ev): true}
+	eng.Instrs(pe, func(in ssa.Instruction) {
+		if st, ok := in.(*ssa.Store); ok {
+			if fr, base, ok := eng.FieldRefOf(st.Addr); ok && fr.Name == "Event" && derivesFrom(st.Val, rs.ev) {
+				spanOfEv[base] = true
+			}
+		}
+	})
+	var derivedObjs []*ssa.Call
+	eng.Instrs(pe, func(in ssa.Instruction) {
+		cl, ok := in.(*ssa.Call)
+		if !ok {
+			return
+		}
+		g := cl.Call.StaticCallee()
+		if g == nil || !x.P.Funcs()[g] {
+			return
+		}
+		if _, isPtr := cl.Type().Underlying().(*types.Pointer); !isPtr {
+			return
+		}
+		for _, a := range cl.Call.Args {
+			for o := range spanOfEv {
+				if a == o {
+					derivedObjs = append(derivedObjs, cl)
+				}
+			}
+		}
+	})
+	for _, d := range derivedObjs {
+		c.Examined++
+		var bad ssa.Instruction
+		eng.Instrs(pe, func(in ssa.Instruction) {
+			if bad != nil {
+				return
+			}
+			switch y := in.(type) {
+			case *ssa.Store:
+				if r, ref := addrRootDeep(y.Addr); r == ssa.Value(d) && ref {
+					bad = in
+				}
+			case *ssa.MapUpdate:
+				if r, _ := addrRootDeep(y.Map); r == ssa.Value(d) {
+					bad = in
+				}
+			case *ssa.Call:
+				if cal := y.Call.StaticCallee(); cal != nil && cal.Signature.Recv() != nil && len(y.Call.Args) > 0 {
+					if r, ref := addrRootDeep(y.Call.Args[0]); r == ssa.Value(d) && ref && x.isMutator(cal, 1) {
+						bad = in
+					}
+				}
+			}
+		})
+		name := eng.MethodBase(eng.CalleeName(d))
+		if bad != nil {
+			c.Violate(r2b, "processEvent/"+name, x.Pos(bad), "an object obtained from the received span through "+eng.CalleeName(d)+" is modified through one of its pointer fields: unless that function copies what the pointer refers to, the write lands on the event already queued for Honeycomb (a struct copy of a span shares its *Event)")
+		} else {
+			c.Hold(r2b, "processEvent/"+name, x.Pos(d), "nothing is written through pointer fields of the derived object")
+		}
+	}
 	for _, al := range copies {
 		c.Examined++
 		var bad ssa.Instruction
